@@ -203,6 +203,15 @@ func (e *Engine) newFuncEnc(fn *ssa.Function, c *FuncContract) *FuncEnc {
 
 func (fe *FuncEnc) reset() {
 	fe.sc = newScript(fe.eng.sorts)
+	if _, ok := fe.eng.cs.SpecFuncs["clean"]; ok {
+		fe.sc.taint = true
+		so := fe.eng.sorts
+		so.extra("(declare-fun sf_clean (hv_Str) Bool)")
+		so.extra("(assert (sf_clean hv_emptystr))")
+		so.extra("(assert (forall ((a hv_Str) (b hv_Str)) (! (=> (and (sf_clean a) (sf_clean b)) (sf_clean (hv_strcat a b))) :pattern ((hv_strcat a b)))))")
+		so.extra("(declare-fun hv_substr (hv_Str Int Int) hv_Str)")
+		so.extra("(assert (forall ((s hv_Str) (l Int) (h Int)) (! (=> (sf_clean s) (sf_clean (hv_substr s l h))) :pattern ((sf_clean (hv_substr s l h))))))")
+	}
 	fe.vals = map[ssa.Value]string{}
 	fe.tups = map[ssa.Value][]string{}
 	fe.heapSorts = map[string]string{}
